@@ -227,7 +227,7 @@ impl Prop for C05 {
         ]
     }
     fn release_fraction(&self, tier: Tier) -> f64 {
-        tier.pick(0.3, 0.5)
+        tier.pick(0.3, 0.1)
     }
     fn max_shrink_iters(&self) -> u32 {
         400
